@@ -24,9 +24,9 @@ Section Pending.
     | ([], _) => Crash
     end.
 
-  (* PendingExpander.validate: for key, value in self.validator(tokens): a suffix gets the shorthand's name in
-     front; return value at the first key that is the wanted one; raise KeyError when the generator is exhausted.
-     The generator is consumed lazily: what it would raise AFTER the wanted key is never seen. *)
+  (* PendingExpander.validate: for key, value in tuple(self.validator(tokens)): the generator is consumed entirely
+     first - what it raises, the call raises ; then a suffix gets the shorthand's name in front and the value of the
+     first key that is the wanted one is returned ; KeyError when there is none. *)
   Fixpoint find_key (shorthand : string) (items : list (string * V)) (wanted : string) : option V :=
     match items with
     | [] => None
@@ -36,9 +36,10 @@ Section Pending.
     end.
 
   Definition expander_validate (shorthand : string) (g : gen (string * V)) (wanted : string) : res V :=
-    match find_key shorthand (fst g) wanted with
-    | Some v => Ok v
-    | None => match snd g with GInvalid => Invalid | _ => Crash end
+    match snd g with
+    | GInvalid => Invalid
+    | GCrash => Crash
+    | GDone => match find_key shorthand (fst g) wanted with Some v => Ok v | None => Crash end
     end.
 
   (* one call of Pending.solve(tokens, wanted_key) on an object whose _reported_error flag is [reported]:
@@ -104,7 +105,7 @@ Section LazyFourSides.
   Definition four_sides_gen (tokens : list tok) (name : string) : gen (string * value V0) :=
     let expanded_names := four_names name in
     if any_var tokens then (map (fun n => (n, VPendingExp tokens name)) expanded_names, GDone)
-    else match four_tokens tokens with
+    else match four_tokens_checked tokens with
          | None => ([], GInvalid)
          | Some four => validate_each_gen (combine expanded_names (map (fun t => [t]) four))
          end.
